@@ -110,7 +110,7 @@ class AbsenceModel:
     def residual(self, syscond, crystal_system, cell_choice):
         key = (tuple(syscond), crystal_system, cell_choice)
         if key not in self._src:
-            from xfabsa.intflow import Specialiser, Dyn, src
+            from xfabsa.intflow import Specialiser, Dyn, closed_src as src
             hkl = [Dyn("h"), Dyn("k"), Dyn("l")]
             fn = self.mod.func("sysabs")
             params = [a.arg for a in fn.args.args]
@@ -130,7 +130,7 @@ class AbsenceModel:
     def residual_unique(self, syscond):
         key = ("unique", tuple(syscond))
         if key not in self._src:
-            from xfabsa.intflow import Specialiser, Dyn, src
+            from xfabsa.intflow import Specialiser, Dyn, closed_src as src
             sp = Specialiser(self.mod)
             self._src[key] = src(sp.specialise("sysabs_unique", [[Dyn("h"), Dyn("k"), Dyn("l")], list(syscond)]))
         return self._src[key]
